@@ -338,9 +338,9 @@ def replay(ctx, case):
 
 
 SUBS = [
-    Sub("encode", run, replay, quick=2400, thorough=360000),
-    Sub("bits16", run_family(16), replay, quick=80, thorough=4500, shards=4),
-    Sub("bits32", run_family(32), replay, quick=16, thorough=600, shards=4),
-    Sub("many_tables", run_many_tables, replay, quick=4, thorough=120,
+    Sub("encode", run, replay, quick=2400, thorough=100000),
+    Sub("bits16", run_family(16), replay, quick=80, thorough=3000, shards=4),
+    Sub("bits32", run_family(32), replay, quick=16, thorough=300, shards=4),
+    Sub("many_tables", run_many_tables, replay, quick=4, thorough=24,
         shards=2),  # ~65k (quick) / ~131k (thorough) lookup tables per chunk
 ]
